@@ -1029,9 +1029,11 @@ class World(object):
             ex = self.build(op[1] + ".pre", op[2])
             fn = self.make_callable(op[1], op[3])
             bound = ex.flat_bind(fn) if (len(op) > 5 and op[5]) else ex.bind(fn)
+            self.bound = getattr(self, "bound", {})
+            self.bound["%s@0" % op[1]] = bound  # every intermediate bound callable stays usable on its own
             for i, layer in enumerate(op[4]):
                 bound = self.add_layer_method(bound, layer, "%s.A%d" % (op[1], i))
-            self.bound = getattr(self, "bound", {})
+                self.bound["%s@%d" % (op[1], i + 1)] = bound
             self.bound[op[1]] = bound
             return None
         if k == "execchain":
@@ -1039,8 +1041,10 @@ class World(object):
             ex = self.build(op[1] + ".pre", op[2])
             if len(op) > 4 and op[4]:
                 ex = ex.with_flat_map(lambda f: f)
+            self.exs["%s@0" % op[1]] = [ex]
             for i, layer in enumerate(op[3]):
                 ex = self.add_layer_method(ex, layer, "%s.A%d" % (op[1], i))
+                self.exs["%s@%d" % (op[1], i + 1)] = [ex]
             self.exs[op[1]] = [ex]
             return None
         if k == "bcall":
@@ -1050,7 +1054,12 @@ class World(object):
             return "called"
         if k == "xsubmit":
             # ["xsubmit", exname, futname, callable_spec, args, kwargs]: submit the same callable to the executor chain
-            fn = self.make_callable(op[1], op[3])
+            # (one callable per chain: a submit to a prefix "B@j" of the chain uses the callable of "B", as the bind form does)
+            cname = op[1].split("@")[0]
+            self.callables = getattr(self, "callables", {})
+            fn = self.callables.get(cname)
+            if fn is None:
+                fn = self.callables[cname] = self.make_callable(cname, op[3])
             f = self.executor(op[1]).submit(fn, *_thaw(op[4]), **dict(op[5] if len(op) > 5 else {}))
             self.futs[op[2]] = f
             return "submitted"
